@@ -71,8 +71,9 @@ def run(ctx):
         outs = ctx.driver.run(reqs) if reqs else []
         for req, (op, replay, exp), out in zip(reqs, metas, outs):
             ctx.count("model_requests")
-            if op == "deleteRangeTarget":
-                # lean/PM/RangeOps.lean: the range delete_range hands to Transform.delete, exact (incl. "the code raises")
+            if op in rangeplan.EXACT_OPS:
+                # lean/PM/RangeOps.lean, Fitter.lean: the range delete_range hands to Transform.delete and the step replace_step
+                # emits, exact (incl. "the code raises")
                 if rangeplan.answer(out) != exp:
                     ctx.mismatch(op, replay, exp, out)
                 continue
@@ -144,6 +145,15 @@ def run(ctx):
                         args = [f, t, n2]
                     if any(x is None for x in args):
                         continue
+                    # the Fitter (lean/PM/Fitter.lean): the step replace_step emits for the request inside the node, exactly
+                    if name in ("replace", "replace_range"):
+                        rangeplan.tie_replace_step(ctx, info, d, f, t, args[2], reqs, metas)
+                    elif name in ("delete", "delete_range"):
+                        rangeplan.tie_replace_step(ctx, info, d, f, t, Slice.empty, reqs, metas)
+                    elif name in ("replace_with", "replace_range_with"):
+                        rangeplan.tie_replace_step(ctx, info, d, f, t, Slice(Fragment.from_(n2), 0, 0), reqs, metas)
+                    else:
+                        rangeplan.tie_replace_step(ctx, info, d, f, f, Slice(Fragment.from_(n2), 0, 0), reqs, metas)
                     tr = Transform(d)
                     st, val, added = ops.run_op(tr, lambda tr_: getattr(tr_, name)(*args))
                     replay = {"schema": info.name, "doc": d.to_json(), "iso": [a, b], **ops.describe(name, args)}
